@@ -567,3 +567,29 @@ def operand_texts(x, cfg, every=False, salt=0):
     if x["cur"] == "":
         return [("num", number_text(q_fraction(x["q"]), cfg["dec"], cfg["tho"]))]
     return money_texts(x["q"], x["cur"], cfg, every, salt)
+
+
+# ---------------------------------------------------------------------------------------------
+# unit quantities (C12)
+# ---------------------------------------------------------------------------------------------
+def unit_tables():
+    """canonical unit name (first configured name) -> {'lit': words a literal may be written with (parse patterns),
+    'names': words a conversion target may be written with}"""
+    out = {}
+    for t in config_json().get("types", []):
+        for it in t.get("items", []):
+            lit = []
+            for p in it.get("parse", []):
+                last = p.split()[-1]
+                w = last[1:-1].split(":")[-1] if last.startswith("{") else last
+                if w not in lit:
+                    lit.append(w)
+            out[it["names"][0]] = {"lit": lit, "names": list(it["names"]), "group": t["name"], "index": it["index"]}
+    return out
+
+
+def unit_texts(x, cfg, every=False, salt=0):
+    tab = unit_tables()[x["u"]]
+    n = number_text(q_fraction(x["q"]), cfg["dec"], cfg["tho"])
+    out = [("w%d" % i, "%s %s" % (n, w)) for i, w in enumerate(tab["lit"])]
+    return out if every else [out[salt % len(out)]]
